@@ -1,56 +1,226 @@
 //! C09: `As`/`CastFrom` between integer types, bool/char sources, reinterpretations.
+//!
+//! Two independent routes to every cast:
+//!   `cast <src> <dst> <hex>`  calls `<D as CastFrom<S>>::cast_from`; `BInt` operands/results go through
+//!                             `Pat` (i.e. `from_bits` / `to_bits`);
+//!   `as   <src> <dst> <hex>`  calls the blanket `As::as_::<D>`; `BInt` operands are built through
+//!                             `as_bits_mut().digits_mut()` and results read through `as_bits().digits()`
+//!                             (`Raw`), so that `from_bits`/`to_bits` are not involved at all.
+//! Types: the 40 bnum types + 12 primitives of `for_type!` (every ordered pair, primitive -> primitive
+//! included: `primitive_cast_impl!` in `src/cast/mod.rs` is bnum code too), and a WIDE set local to this
+//! bin (`for_wide!`: 8192-bit and just-below-8192-bit instantiations of every digit type) that is paired
+//! with itself, with the primitives and with a few small bnum types (`for_small!`).
 use bnum_verif_harness::*;
-use bnum::cast::CastFrom;
+use bnum::cast::{As, CastFrom};
 
-macro_rules! inner {
-    // primitive -> primitive casts are not bnum's code
-    (pr $ds:ident ($D:ty) pr $ss:ident ($S:ty) $x:ident) => { None };
-    ($dk:ident $ds:ident ($D:ty) $sk:ident $ss:ident ($S:ty) $x:ident) => {
-        Some(Pat::to_hex(&<$D as CastFrom<$S>>::cast_from(<$S as Pat>::from_hex($x))))
+/// hex <-> integer without `BInt::from_bits` / `BInt::to_bits`
+trait Raw: Sized {
+    fn raw_from_hex(s: &str) -> Self;
+    fn raw_to_hex(&self) -> String;
+}
+macro_rules! raw_prim {
+    ($($t:ty),*) => {$(
+        impl Raw for $t {
+            fn raw_from_hex(s: &str) -> Self { <$t as Pat>::from_hex(s) }
+            fn raw_to_hex(&self) -> String { Pat::to_hex(self) }
+        }
+    )*};
+}
+raw_prim!(u8, u16, u32, u64, u128, usize, i8, i16, i32, i64, i128, isize);
+macro_rules! raw_bnum {
+    ($U:ident, $I:ident) => {
+        impl<const N: usize> Raw for bnum::$U<N> {
+            fn raw_from_hex(s: &str) -> Self { <Self as Pat>::from_hex(s) }
+            fn raw_to_hex(&self) -> String { Pat::to_hex(self) }
+        }
+        impl<const N: usize> Raw for bnum::$I<N> {
+            fn raw_from_hex(s: &str) -> Self {
+                let u = <bnum::$U<N> as Pat>::from_hex(s);
+                let mut r = Self::ZERO;
+                *r.as_bits_mut().digits_mut() = *u.digits();
+                r
+            }
+            fn raw_to_hex(&self) -> String {
+                let b: Vec<u8> = self.as_bits().digits().iter().flat_map(|d| d.to_le_bytes()).collect();
+                le_bytes_to_hex(&b)
+            }
+        }
     };
 }
-macro_rules! outer {
-    ($sk:ident $ss:ident ($S:ty) $dst:ident $x:ident) => { for_type!($dst, inner!($sk $ss ($S) $x)) };
+raw_bnum!(BUint, BInt);
+raw_bnum!(BUintD32, BIntD32);
+raw_bnum!(BUintD16, BIntD16);
+raw_bnum!(BUintD8, BIntD8);
+
+/// `CastFrom::cast_from`, I/O through `Pat`
+#[inline(never)]
+fn cast_pair<S: Pat, D: Pat + CastFrom<S>>(x: &str) -> String {
+    Pat::to_hex(&<D as CastFrom<S>>::cast_from(<S as Pat>::from_hex(x)))
 }
-// `for_type!` puts the matched type first, so the outer pass matches the *destination*:
+/// `As::as_`, I/O through `Raw`
+#[inline(never)]
+fn as_pair<S: Raw, D: Raw + CastFrom<S>>(x: &str) -> String {
+    Raw::raw_to_hex(&As::as_::<D>(<S as Raw>::raw_from_hex(x)))
+}
+/// both routes (the pairs outside the 52 x 52 grid of `for_type!`)
+fn both_pair<S: Pat + Raw, D: Pat + Raw + CastFrom<S>>(via_as: bool, x: &str) -> String {
+    if via_as { as_pair::<S, D>(x) } else { cast_pair::<S, D>(x) }
+}
+#[inline(never)]
+fn cast_bool<D: Pat + Raw + CastFrom<bool>>(via_as: bool, x: &str) -> String {
+    let b = x != "0";
+    if via_as { Raw::raw_to_hex(&As::as_::<D>(b)) } else { Pat::to_hex(&<D as CastFrom<bool>>::cast_from(b)) }
+}
+#[inline(never)]
+fn cast_char<D: Pat + Raw + CastFrom<char>>(via_as: bool, x: &str) -> String {
+    let c = char::from_u32(u32::from_str_radix(x, 16).unwrap()).expect("char");
+    if via_as { Raw::raw_to_hex(&As::as_::<D>(c)) } else { Pat::to_hex(&<D as CastFrom<char>>::cast_from(c)) }
+}
+fn same<T: PartialEq>(a: T, b: T) -> bool { a == b }
+
+/// the wide instantiations (8192 bits, and the widest digit counts that are not a multiple of the
+/// digit-size ratios, so that the last packed digit is partial)
+macro_rules! for_wide {
+    ($name:expr, $m:ident ! ( $($extra:tt)* )) => {
+        match $name {
+            "u8x1024" => $m!(bn u (bnum::BUintD8<1024>) $($extra)*),
+            "i8x1024" => $m!(bn i (bnum::BIntD8<1024>) $($extra)*),
+            "u8x1021" => $m!(bn u (bnum::BUintD8<1021>) $($extra)*),
+            "i8x1021" => $m!(bn i (bnum::BIntD8<1021>) $($extra)*),
+            "u16x512" => $m!(bn u (bnum::BUintD16<512>) $($extra)*),
+            "i16x512" => $m!(bn i (bnum::BIntD16<512>) $($extra)*),
+            "u32x256" => $m!(bn u (bnum::BUintD32<256>) $($extra)*),
+            "i32x256" => $m!(bn i (bnum::BIntD32<256>) $($extra)*),
+            "u64x128" => $m!(bn u (bnum::BUint<128>) $($extra)*),
+            "i64x128" => $m!(bn i (bnum::BInt<128>) $($extra)*),
+            "u64x127" => $m!(bn u (bnum::BUint<127>) $($extra)*),
+            "i64x127" => $m!(bn i (bnum::BInt<127>) $($extra)*),
+            _ => None,
+        }
+    };
+}
+fn is_wide(name: &str) -> bool {
+    matches!(name, "u8x1024" | "i8x1024" | "u8x1021" | "i8x1021" | "u16x512" | "i16x512"
+        | "u32x256" | "i32x256" | "u64x128" | "i64x128" | "u64x127" | "i64x127")
+}
+/// the partners of the wide types other than the wide types themselves: a few small bnum types and
+/// the primitives
+macro_rules! for_small {
+    ($name:expr, $m:ident ! ( $($extra:tt)* )) => {
+        match $name {
+            "i8x3" => $m!(bn i (bnum::BIntD8<3>) $($extra)*),
+            "u8x17" => $m!(bn u (bnum::BUintD8<17>) $($extra)*),
+            "i16x5" => $m!(bn i (bnum::BIntD16<5>) $($extra)*),
+            "u16x1" => $m!(bn u (bnum::BUintD16<1>) $($extra)*),
+            "i32x3" => $m!(bn i (bnum::BIntD32<3>) $($extra)*),
+            "u32x6" => $m!(bn u (bnum::BUintD32<6>) $($extra)*),
+            "i64x1" => $m!(bn i (bnum::BInt<1>) $($extra)*),
+            "u64x3" => $m!(bn u (bnum::BUint<3>) $($extra)*),
+            "u8" => $m!(pr u (u8) $($extra)*),
+            "u16" => $m!(pr u (u16) $($extra)*),
+            "u32" => $m!(pr u (u32) $($extra)*),
+            "u64" => $m!(pr u (u64) $($extra)*),
+            "u128" => $m!(pr u (u128) $($extra)*),
+            "usize" => $m!(pr u (usize) $($extra)*),
+            "i8" => $m!(pr i (i8) $($extra)*),
+            "i16" => $m!(pr i (i16) $($extra)*),
+            "i32" => $m!(pr i (i32) $($extra)*),
+            "i64" => $m!(pr i (i64) $($extra)*),
+            "i128" => $m!(pr i (i128) $($extra)*),
+            "isize" => $m!(pr i (isize) $($extra)*),
+            _ => None,
+        }
+    };
+}
+
+// `for_type!` / `for_wide!` / `for_small!` put the matched type first.
+// grid x grid: the outer pass matches the *destination*, the inner one the source.
 macro_rules! by_dst {
-    ($dk:ident $ds:ident ($D:ty) $src:ident $x:ident) => { for_type!($src, by_src!($dk $ds ($D) $x)) };
+    ($dk:ident $ds:ident ($D:ty) $src:ident $x:ident) => { for_type!($src, fin_grid!(($D) $x)) };
 }
-macro_rules! by_src {
-    ($sk:ident $ss:ident ($S:ty) $dk:ident $ds:ident ($D:ty) $x:ident) => { inner!($dk $ds ($D) $sk $ss ($S) $x) };
+macro_rules! fin_grid {
+    ($sk:ident $ss:ident ($S:ty) ($D:ty) $x:ident) => { Some(cast_pair::<$S, $D>($x)) };
 }
-macro_rules! from_bool { ($dk:ident $ds:ident ($D:ty) $x:ident) => { Some(Pat::to_hex(&<$D as CastFrom<bool>>::cast_from($x != "0"))) }; }
-macro_rules! from_char { ($dk:ident $ds:ident ($D:ty) $x:ident) => {
-    Some(Pat::to_hex(&<$D as CastFrom<char>>::cast_from(char::from_u32(u32::from_str_radix($x, 16).unwrap()).expect("char")))) }; }
+/// small x small (both routes): matched = small DESTINATION
+macro_rules! small_dst {
+    ($dk:ident $ds:ident ($D:ty) $src:ident $via:ident $x:ident) => { for_small!($src, fin_src!(($D) $via $x)) };
+}
+/// matched type = SOURCE, the destination type is in the extras
+macro_rules! fin_src {
+    ($sk:ident $ss:ident ($S:ty) ($D:ty) $via:ident $x:ident) => { Some(both_pair::<$S, $D>($via, $x)) };
+}
+/// matched type = DESTINATION, the source type is in the extras (`cast` route only)
+macro_rules! fin_dst {
+    ($dk:ident $ds:ident ($D:ty) ($S:ty) $x:ident) => { Some(cast_pair::<$S, $D>($x)) };
+}
+/// matched: a wide SOURCE; destination = any wide or small type
+macro_rules! wide_src {
+    ($sk:ident $ss:ident ($S:ty) $dst:ident $x:ident) => {
+        match for_wide!($dst, fin_dst!(($S) $x)) {
+            Some(r) => Some(r),
+            None => for_small!($dst, fin_dst!(($S) $x)),
+        }
+    };
+}
+/// matched: a wide DESTINATION; source = a small type
+macro_rules! wide_dst {
+    ($dk:ident $ds:ident ($D:ty) $src:ident $x:ident) => { for_small!($src, fin_grid!(($D) $x)) };
+}
+macro_rules! from_bool { ($dk:ident $ds:ident ($D:ty) $via:ident $x:ident) => { Some(cast_bool::<$D>($via, $x)) }; }
+macro_rules! from_char { ($dk:ident $ds:ident ($D:ty) $via:ident $x:ident) => { Some(cast_char::<$D>($via, $x)) }; }
+
 macro_rules! reinterp {
-    (bn u ($D:ty) $op:ident $x:ident) => { match $op { "cast_signed" => Some(Pat::to_hex(&<$D as Pat>::from_hex($x).cast_signed())), _ => None } };
+    (bn u ($D:ty) $op:ident $x:ident) => { match $op {
+        "cast_signed" => Some(Pat::to_hex(&<$D as Pat>::from_hex($x).cast_signed())),
+        // result read through `as_bits().digits()` and `is_negative()`, not through `to_bits`
+        "cast_signed_obs" => { let r = <$D as Pat>::from_hex($x).cast_signed();
+            Some(format!("{}/{}", Raw::raw_to_hex(&r), r.is_negative())) }
+        // `cast_signed` against the same-width `As` cast
+        "reinterp_vs_cast" => { let u = <$D as Pat>::from_hex($x);
+            Some(format!("{}", same(u.cast_signed(), CastFrom::cast_from(u)))) }
+        _ => None } };
     (bn i ($D:ty) $op:ident $x:ident) => { match $op {
         "cast_unsigned" => Some(Pat::to_hex(&<$D as Pat>::from_hex($x).cast_unsigned())),
         "to_bits" => Some(Pat::to_hex(&<$D as Pat>::from_hex($x).to_bits())),
         "from_bits" => Some(Pat::to_hex(&<$D>::from_bits(Pat::from_hex($x)))),
+        // operand built through `as_bits_mut`, not through `from_bits`
+        "cast_unsigned_obs" => Some(Pat::to_hex(&<$D as Raw>::raw_from_hex($x).cast_unsigned())),
+        "to_bits_obs" => Some(Pat::to_hex(&<$D as Raw>::raw_from_hex($x).to_bits())),
+        // result read through `as_bits().digits()` and `is_negative()`, not through `to_bits`
+        "from_bits_obs" => { let r = <$D>::from_bits(Pat::from_hex($x));
+            Some(format!("{}/{}", Raw::raw_to_hex(&r), r.is_negative())) }
+        // `cast_unsigned`, `to_bits`, `from_bits` against the same-width `As` casts
+        "reinterp_vs_cast" => { let y = <$D as Raw>::raw_from_hex($x); let u = *y.as_bits();
+            Some(format!("{}/{}/{}", same(y.cast_unsigned(), CastFrom::cast_from(y)), same(y.to_bits(), CastFrom::cast_from(y)),
+                same(<$D>::from_bits(u), CastFrom::cast_from(u)))) }
         _ => None } };
     (pr $s:ident ($D:ty) $op:ident $x:ident) => { None };
 }
 
 fn main() {
-    // requests: `cast <src> <dst> <hex>`; `cast bool <dst> 0|1`; `cast char <dst> <hex scalar>`;
+    // requests: `cast|as <src> <dst> <hex>`; `cast|as bool <dst> 0|1`; `cast|as char <dst> <hex scalar>`;
     //           `cast_signed <cfg> <hex>` etc.
     serve(|op, a0, args| {
         match op {
-            "cast" => {
+            "cast" | "as" => {
                 let src = a0;
                 let dst = args[0];
                 let x = args[1];
-                let _ = (src, x);
+                let via = op == "as";
+                let _ = (src, x, via);
                 match src {
-                    "bool" => for_type!(dst, from_bool!(x)),
-                    "char" => for_type!(dst, from_char!(x)),
+                    "bool" => if is_wide(dst) { for_wide!(dst, from_bool!(via x)) } else { for_type!(dst, from_bool!(via x)) },
+                    "char" => if is_wide(dst) { for_wide!(dst, from_char!(via x)) } else { for_type!(dst, from_char!(via x)) },
+                    _ if is_wide(src) && !via => for_wide!(src, wide_src!(dst x)),
+                    _ if is_wide(dst) && !via => for_wide!(dst, wide_dst!(src x)),
+                    _ if via => for_small!(dst, small_dst!(src via x)),
                     _ => for_type!(dst, by_dst!(src x)),
                 }
             }
-            "cast_signed" | "cast_unsigned" | "to_bits" | "from_bits" => {
+            "cast_signed" | "cast_unsigned" | "to_bits" | "from_bits" | "cast_signed_obs" | "cast_unsigned_obs"
+            | "to_bits_obs" | "from_bits_obs" | "reinterp_vs_cast" => {
                 let x = args[0];
-                for_type!(a0, reinterp!(op x))
+                if is_wide(a0) { for_wide!(a0, reinterp!(op x)) } else { for_type!(a0, reinterp!(op x)) }
             }
             _ => None,
         }
